@@ -50,8 +50,12 @@ FnExprs(t) ==
              FnN("hmin", <<x, y, LitI(1), Fn1("neg", x)>>), FnN("hmax", <<x, y, LitI(1), Fn1("neg", x)>>),
              FnN("hmin", <<LitI(7), Fn1("neg", y), y, x, LitI(3)>>), FnN("hmax", <<LitI(-7), Fn1("neg", y), y, x, LitN>>),
              FnN("coalesce", <<LitN, LitN, y, x>>), FnN("hsum", <<x, y, x, y>>)>>
-        \* case expressions: first true branch wins, null without a match
-        \o <<Case1(Fn2("gt", x, LitI(0)), y),
+        \* case expressions: first true branch wins, null without a match.  The replayer keeps ONE python object per
+        \* expression (as a user who stores `first = when(c).then(v)` in a variable does) and derives the longer case
+        \* expression from the object of its prefix: the two-branch form comes first, its prefix is evaluated after it
+        \o <<Case2D(Fn2("gt", x, LitI(0)), y, Fn2("lt", x, LitI(0)), Fn1("neg", y), LitN),
+             [k |-> "case", cs |-> <<[c |-> Fn2("gt", x, LitI(0)), v |-> y], [c |-> Fn2("lt", x, LitI(0)), v |-> Fn1("neg", y)]>>, d |-> <<>>],
+             Case1(Fn2("gt", x, LitI(0)), y),
              Case1D(Fn2("gt", x, LitI(0)), y, LitI(-1)),
              Case1D(p, x, y),
              Case2D(Fn2("gt", x, LitI(1)), LitI(1), Fn2("gt", x, LitI(-2)), LitI(2), LitI(3)),
